@@ -2250,15 +2250,15 @@ vbi_decode_teletext(vbi_decoder *vbi, uint8_t *buffer)
 		while ((curr = vbi->vt.current)) {
 			vtp = curr->page;
 
-			if (vtp->flags & C11_MAGAZINE_SERIAL) {
-				if (vtp->pgno == pgno && !(vtp->flags & C4_ERASE_PAGE))
-					break;
-			} else {
+			/* Magazine serial transmission: every header ends the
+			   page in progress.  Parallel: the header ends the page
+			   in progress in its own magazine.  Also a header which
+			   repeats the page number ends the page: the rows
+			   collected so far belong to the page, often another
+			   subpage, transmitted before. */
+			if (!(vtp->flags & C11_MAGAZINE_SERIAL)) {
 				curr = rvtp;
 				vtp = curr->page;
-
-				if ((vtp->pgno & 0xFF) == page && !(vtp->flags & C4_ERASE_PAGE))
-					break;
 			}
 
 			switch (vtp->function) {
